@@ -3,6 +3,8 @@ package lib
 import (
 	"strconv"
 	"strings"
+	"unicode"
+	"unicode/utf8"
 )
 
 // Reference tokeniser, written from the README's token description: words
@@ -31,15 +33,32 @@ var refKeywords = map[string]string{
 
 func isWordByte(c byte) bool {
 	switch c {
-	case ' ', '\'', '"', '`', '~', '^', '=', '!', '*', '+', '-', '/', '>', '<',
+	case ' ', '\t', '\n', '\r', '\'', '"', '`', '~', '^', '=', '!', '*', '+', '-', '/', '>', '<',
 		'&', '|', '(', ')', '[', ']', ',', ';':
 		return false
 	}
 	return true
 }
 
+// FoldWord is the case folding of a bare word: letters to lower case, bytes
+// that are not valid UTF-8 unchanged (the token must carry the text that
+// stands in the query).
+func FoldWord(w string) string {
+	var sb strings.Builder
+	for i := 0; i < len(w); {
+		r, size := utf8.DecodeRuneInString(w[i:])
+		if r == utf8.RuneError && size == 1 {
+			sb.WriteByte(w[i])
+		} else {
+			sb.WriteRune(unicode.ToLower(r))
+		}
+		i += size
+	}
+	return sb.String()
+}
+
 func ClassifyWord(w string) string {
-	l := strings.ToLower(w)
+	l := FoldWord(w)
 	if k, ok := refKeywords[l]; ok {
 		return k
 	}
@@ -57,8 +76,8 @@ func ClassifyWord(w string) string {
 // ^= / ~=): such inputs are only subject to the token-truth invariants.
 func RefLex(q string) (toks []RefTok, ok bool) {
 	ok = true
-	if strings.ContainsAny(q, "\t\n\r\v\f") {
-		// blanks other than the space: not described, no reference tokens
+	if strings.ContainsAny(q, "\v\f") {
+		// blanks other than space, tab and line end: not described
 		ok = false
 	}
 	i := 0
@@ -66,8 +85,8 @@ func RefLex(q string) (toks []RefTok, ok bool) {
 	for i < n {
 		c := q[i]
 		switch {
-		case c == ' ':
-			i++
+		case c == ' ' || c == '\t' || c == '\n' || c == '\r':
+			i++ // blanks: space, tab, line end
 		case c == '\'' || c == '"' || c == '`':
 			kind := "STR"
 			if c == '`' {
@@ -105,7 +124,7 @@ func RefLex(q string) (toks []RefTok, ok bool) {
 				j++
 			}
 			w := q[i:j]
-			toks = append(toks, RefTok{Kind: ClassifyWord(w), Data: strings.ToLower(w), Pos: i})
+			toks = append(toks, RefTok{Kind: ClassifyWord(w), Data: FoldWord(w), Pos: i})
 			i = j
 		}
 	}
